@@ -22,12 +22,14 @@ CLAIMED = {
         note=CONC_NOTE + ' "Eventually runs" is C03; per-queue exactly-once hand-out is C04.',
         technique='Coq inductive invariant over a per-job transition system + lock-step trace validation', ref='5 C01'),
     'C02': dict(
-        text='Machine-checked: the worker functions in progress never exceed curProcessing; curProcessing grows only when the event loop reserves a slot, and a reservation '
-             'leaves it at most at the limit its guard read (so after TunePool(n) every later reservation is bounded by n). The model follows one arbitrary job exactly and '
-             'the rest through counters; per-job projections of the whole log — including the single-event-loop precondition of every reservation — are replayed on the extracted '
-             'model on every run. Peak in-flight invocations per limit epoch are monitored on every explored history (gated worker functions, TunePool up/down, Restart, Bind).',
-        note='Theorems are about coq/SliceDisp.v. That only one event loop increments at a time is a validated precondition of the model, not a theorem about goroutine creation. '
-             'Trusted: Coq kernel, extraction, rewriter + shim runtime, projection, harness.',
+        text='Machine-checked: the worker functions in progress never exceed curProcessing; curProcessing grows only at a reservation; a reservation goes on (to the status re-check, the dequeue, '
+             'the dispatch) only if the value its own Add returned — curProcessing with itself counted — is within the limit the same thread loads next, otherwise it can only be handed back. '
+             'So at the instant of every reservation that leads to a dispatch, everything in flight is within the limit then in effect (after TunePool(n) every later reservation loads n), for any '
+             'number of concurrently reserving threads — there is no single-event-loop assumption (a stale loop racing its successor after Restart is covered). The model follows one arbitrary job '
+             'exactly and the rest through counters; per-job projections of the whole log are replayed on the extracted model on every run. Peak in-flight invocations against the limits set through '
+             'the API (configuration, TunePool; Bind / Resume / Restart must not change it) are monitored on every explored history: gated worker functions, TunePool up / down, a second wave after '
+             'Restart / Pause+Resume / Bind, and a directed schedule holding the event loop before its reservation across a Restart.',
+        note='Theorems are about coq/SliceDisp.v. Trusted: Coq kernel, extraction, rewriter + shim runtime, projection, harness.',
         technique='Coq inductive invariant over a one-job-plus-counters transition system + lock-step trace validation', ref='5 C02'),
     'C03': dict(
         text='Machine-checked: whenever the event loop is parked on its signal channel while its guard (running, below the limit, something pending) is true, a signal is buffered or a '
